@@ -252,6 +252,36 @@ def multi_step_pair(rng):
     return rand_rgb(rng), rand_rgb(rng)
 
 
+def just_clearable_pair(rng):
+    """text next to white (or black) on a background that pure white (black) only just clears for one of the minima
+    3 / 4.5 / 7: the last step of a fix crosses the line with a tiny gain, pinned against the gamut edge"""
+    import colorsys
+    repo_import()
+    from cm_colors.core.contrast import calculate_contrast_ratio as ratio
+    for _ in range(60):
+        mn = rng.choice([3.0, 4.5, 4.5, 7.0])
+        far = rng.choice([(255, 255, 255), (0, 0, 0)])
+        want = mn * (1 + 10 ** rng.uniform(-3.3, -1.3))       # white/black clears the minimum by 0.05 % ... 5 %
+        h, sat = rng.random(), rng.uniform(0.3, 1.0)
+        lo, hi = 0.0, 1.0
+        for _i in range(16):                      # ratio(far, b) is monotone in the value of b
+            mid = (lo + hi) / 2
+            b = tuple(int(round(255 * x)) for x in colorsys.hsv_to_rgb(h, sat, mid))
+            r = ratio(far, b)
+            if (r > want) == (far == (255, 255, 255)):
+                lo = mid
+            else:
+                hi = mid
+        b = tuple(int(round(255 * x)) for x in colorsys.hsv_to_rgb(h, sat, (lo + hi) / 2))
+        if not (mn <= ratio(far, b) <= mn * 1.08):
+            continue
+        d = rng.choice([3, 6, 10, 16])
+        t = tuple(max(0, min(255, x + (rng.randint(-d, 0) if far[0] else rng.randint(0, d)))) for x in far)
+        if ratio(t, b) < mn:
+            return t, b
+    return isoluminant_pair(rng)
+
+
 def gen_pairs(rng, n):
     """structured pair mix: uniform, grey x grey, named x named, near-threshold, text≈bg"""
     repo_import()
@@ -261,7 +291,9 @@ def gen_pairs(rng, n):
     kinds = []
     for i in range(n):
         u = rng.random()
-        if u < 0.10:
+        if u < 0.07:
+            pairs.append(just_clearable_pair(rng)); kinds.append("just_clearable")
+        elif u < 0.10:
             pairs.append((rand_rgb(rng), rand_rgb(rng))); kinds.append("uniform")
         elif u < 0.17:
             pairs.append(isoluminant_pair(rng)); kinds.append("isolum")
@@ -290,7 +322,7 @@ def gen_caf_cases(rng, n):
     cases = []
     for (t, b), k in zip(pairs, kinds):
         # pairs whose lightness order and luminance order disagree matter most in the stepping modes
-        mode = rng.choice([1, 1, 1, 2, 0]) if k in ("order_disagree", "isolum") else rng.choice([0, 1, 1, 2])
+        mode = rng.choice([1, 1, 1, 2, 0]) if k in ("order_disagree", "isolum", "just_clearable") else rng.choice([0, 1, 1, 2])
         cases.append((t, b, rng.randrange(2), mode, rng.randrange(2)))
     return cases, kinds
 
